@@ -382,6 +382,12 @@ AwaitReturn(r) ==
         /\ rq' = [rq EXCEPT ![r].pc = "done", ![r].result = [kind |-> "ctxerr"]]
      \/ /\ Settled(r) /\ ~NeedsRefresh(r)
         /\ rq' = [rq EXCEPT ![r].pc = "done", ![r].result = Outcome(r)]
+     \* joined.await of a split request whose context ended: every leg is awaited with the ended context, a leg
+     \* that was already answered may still be taken, and the merge of answers and context errors is a response
+     \* whose unanswered partitions carry an error code (not the context's error)
+     \/ /\ rq[r].cancelled # "no" /\ rq[r].d.cls = "split"
+        /\ \E i \in DOMAIN rq[r].legs : rq[r].legs[i].st = "ok"
+        /\ rq' = [rq EXCEPT ![r].pc = "done", ![r].result = [kind |-> "response", partial |-> TRUE]]
   /\ UNCHANGED <<cl, moves, snaps, pool, disc, conns, sent, served, budget>>
 
 AwaitRefresh(r) ==
